@@ -170,8 +170,10 @@ class App(object):
             policy.reset()
             for (grp, key), val in self._overrides.items():
                 self.conf.set_override(key, val, group=grp)
+            self._policy_file = None
             if policy_rules is not None:
                 self._policy_file = self._write_policy(policy_rules)
+                self.conf.set_override('policy_file', self._policy_file, group='oslo_policy')
             if sync:
                 self.app = deploy.loadapp(self.conf)
             else:
@@ -184,9 +186,21 @@ class App(object):
     def close(self):
         for (grp, key), _ in self._overrides.items():
             self.conf.clear_override(key, group=grp)
+        if self._policy_file:
+            self.conf.clear_override('policy_file', group='oslo_policy')
+            try:
+                os.remove(self._policy_file)
+            except OSError:
+                pass
+            policy.reset()
 
     def _write_policy(self, rules):
-        raise NotImplementedError
+        import tempfile
+        fd, path = tempfile.mkstemp(prefix='pv_policy_', suffix='.yaml')
+        with os.fdopen(fd, 'w') as f:
+            for k, v in rules.items():
+                f.write('"%s": "%s"\n' % (k, v))
+        return path
 
     def request(self, method, path, body=None, version=None, headers=None,
                 token='admin', raw_body=None, content_type='application/json',
